@@ -1245,6 +1245,36 @@ example (solver : LinModel (Ext ℚ) → MlpOutcome (Ext ℚ)) (t : ℚ) (ht : 0
   subst this
   exact ⟨hone, w, hr⟩
 
+/-- **the whole default path from a program, as ONE diffed function.**  `Pipeline.solveProg p typeChecks tol n solver`
+(`Rooc/Pipeline.lean`) models `RoocSolver::try_new(text)?.solve_using(auto_solver)` on the iteration fragment: parser's
+arity rule, type checker (a parameter: the verdict of the real one), `transform` (`Pre.transformCore`, agent-pre's C06
+model), `Linearizer::linearize`, `auto_solver`; every `./check C03` run compares it arm by arm and `LpSolution` by
+`LpSolution` with the real entry point on generated program texts.  Whenever it answers past the front end, the
+transformed model `m` exists and — under the contract on `m` and the recorded assumption `SolverSpec` — a solution
+labelled Optimal satisfies `m` and carries the reference's optimum, and `Err(Solver(Infeasible))` means `refSolve m =
+infeasible`. -/
+theorem c03_solve_prog_logic_partial {solver : LinModel (Ext K) → MlpOutcome (Ext K)} {p : Pre.ProgM} {tc : Bool}
+    {t : K} (ht : 0 ≤ t) {maxSteps : Nat}
+    (hcontract : ∀ m : Model (Ext K), (Pre.transformCore p : Except Pre.IErr (Model (Ext K))) = .ok m →
+      LogicModel m m.domain ∧ AssertShape m ∧ DeclOK m.domain ∧ (t < 1 ∨ NoIntegerVars m.domain) ∧
+      (∃ asg, assignments m.domain = some asg) ∧
+      ∀ lm, Compile.linearize m (.fin t) maxSteps = .ok lm → SolverSpec lm (solver lm)) :
+    (∀ lm sol, Pipeline.solveProg p tc (.fin t) maxSteps solver = .compiled (.solved lm sol) → sol.status = .optimal →
+      ∃ m : Model (Ext K), (Pre.transformCore p : Except Pre.IErr (Model (Ext K))) = .ok m ∧
+        srcFeasible m (assignmentOf sol) = true ∧
+        (m.optType ≠ .satisfy → ∃ v w, refSolve m = .optimal v w ∧ sol.value = .fin v) ∧
+        (m.optType = .satisfy → ∃ w, refSolve m = .feasibleAny w)) ∧
+    (Pipeline.solveProg p tc (.fin t) maxSteps solver = .compiled (.solver "Infeasible") →
+      ∃ m : Model (Ext K), (Pre.transformCore p : Except Pre.IErr (Model (Ext K))) = .ok m ∧
+        refSolve m = .infeasible ∧ ∀ ρ : String → K, srcFeasible m ρ = false) := by
+  refine ⟨fun lm sol hp hst => ?_, fun hp => ?_⟩
+  · obtain ⟨_, _, m, hm, hu⟩ := solveProg_compiled hp
+    obtain ⟨h1, h2, h3, h4, ⟨asg, ha⟩, hspec⟩ := hcontract m hm
+    exact ⟨m, hm, (c03_solve_using_logic_partial ht h1 h2 h3 h4 ha hspec).1 lm sol hu hst⟩
+  · obtain ⟨_, _, m, hm, hu⟩ := solveProg_compiled hp
+    obtain ⟨h1, h2, h3, h4, ⟨asg, ha⟩, hspec⟩ := hcontract m hm
+    exact ⟨m, hm, (c03_solve_using_logic_partial ht h1 h2 h3 h4 ha hspec).2 hu⟩
+
 /-! ### any answer honouring the contract, judged against the SOURCE semantics (no enumerability needed), and the
 fully proved instance: `Compile.linearize` ∘ `to_standard_form` ∘ `into_tableau` ∘ step loop ∘ `as_lp_solution` -/
 
